@@ -7,7 +7,8 @@ exact-size blocks with EVERY index assignment; value, ALLOC and "block changed" 
 from genlib import *
 
 LEAN_MODULES = ["MpirProofs.Props.C05_ptr2"]
-THEOREMS = ["Mpir.AliasMem.rootrem_ptr_spec", "Mpir.AliasMem.rootrem_exceptions"]
+THEOREMS = ["Mpir.AliasMem.rootrem_ptr_spec", "Mpir.AliasMem.rootrem_exceptions",
+            "Mpir.AliasMem.mpz_mul_ptr_spec"]
 PINS = [("mpz/mul.c", None), ("gmp-mparam.h", "MUL_KARATSUBA_THRESHOLD")]
 TRUSTED = ["hand-written pointer-level models lean/Mpir/Model/AliasMul.lean (tied by the ops alias_mul … of harness/ops_alias2.c on every "
            "index assignment: values, ALLOC and which blocks were replaced; source pins on mul.c and MUL_KARATSUBA_THRESHOLD)"]
